@@ -1,6 +1,7 @@
 package main
 
 import (
+	"regexp"
 	"fmt"
 	"math"
 	"go/constant"
@@ -52,6 +53,7 @@ type Obligation struct {
 	Block   int
 	Result  SolverResult
 	Agree   *SolverResult // thorough tier: second back end
+	Detail  string        // human-readable reason (syntactic verdicts)
 }
 
 type candidate struct {
@@ -677,9 +679,15 @@ func (e *Enc) strEqLit(s string, lit string) string {
 	for i := 0; i < len(lit); i++ {
 		parts = append(parts, eq(app("sat", s, num(int64(i))), num(int64(lit[i]))))
 	}
+	if boundVarRe.MatchString(s) {
+		// the term mentions a quantified variable: the defining equivalence must stay inside the quantifier
+		return and(parts...)
+	}
 	e.assume(eq(eq(s, q), and(parts...)))
 	return eq(s, q)
 }
+
+var boundVarRe = regexp.MustCompile(`\b[qx]\d+![A-Za-z_]`)
 
 func (e *Enc) constVal(c *ssa.Const) *Val {
 	t := c.Type()
